@@ -41,7 +41,7 @@ def run(ctx, chk):
                 n += 1
                 chk.check(R3, nm == "push", "%s:Vec::%s" % (mir_name(p).split("::")[-1], nm), "loader calls Vec::%s" % nm, where(t["span"]),
                           key="C01:vec:%s:%s" % (mir_name(p).split("::")[-1], nm))
-    chk.floor(R3, "Vec mutations in the loader", n, 19)
+    chk.floor(R3, "Vec mutations in the loader", n, 10)
 
     R4 = chk.rule("S4-COVER", "every container the loader can move an instruction into is read by Module::assemble_into")
     tv = Trav(ctx)
